@@ -27,7 +27,7 @@
 (* group>> pairs; the code compares the list sorted by class and target id, *)
 (* which distinguishes at least as much.                                    *)
 (***************************************************************************)
-EXTENDS ScannerApi
+EXTENDS ScannerApi, Json, IOUtils
 
 CONSTANTS DropLeadingEmptyAlt, IgnoreTypes, GW
 
@@ -146,10 +146,10 @@ SpecAcc(pats, w) == { pats[p].tt : p \in { p \in DOMAIN pats : (Len(w) + 1) \in 
 RECURSIVE Run(_, _, _, _)
 Run(A, Q, w, j) == IF j > Len(w) THEN Q ELSE Run(A, StepA(A, Q, w[j]), w, j + 1)
 
-VARIABLES pci
+VARIABLES pci, pk
 \* (configurations are handed out by Next so that TLC's workers share them)
-PInit == Init /\ pci = 0
-PNext == pci = 0 /\ pci' \in CfgLo..CfgHi /\ UNCHANGED apiVars
+PInit == Init /\ pci = 0 /\ pk = 0
+PNext == pci = 0 /\ pci' \in CfgLo..CfgHi /\ UNCHANGED <<apiVars, pk>>
 \* every word of the World's inputs is run through both automata of every mode
 PipelineCorrect ==
   pci # 0 =>
@@ -163,4 +163,21 @@ PipelineCorrect ==
          LET w == W(k) IN
          w # <<>> => /\ AccA(A, Run(A, {A.init}, w, 1)) = SpecAcc(pats, w)
                      /\ AccA(M, Run(M, {M.init}, w, 1)) = SpecAcc(pats, w)
+\* ---- binding to the code (MODEL-DRIFT): sizes of the automata the code built ------------------
+\* PCases: the "mode" cases of a dump (harness `dump`): source patterns with atomised leaves, the
+\* number of states and transitions of the automaton that ENTERED the minimiser (pre_n,
+\* pre_trans) and of the one that left it (impl.n).  The closure construction is deterministic, so
+\* Compile must produce exactly as many states; the model's minimiser may merge more than the
+\* code's (bag signatures, see above), never less.  Differences are informational (drift).
+PCases == TLCEval(IF "VERIF_PCASES" \in DOMAIN IOEnv THEN JsonDeserialize(IOEnv.VERIF_PCASES) ELSE <<>>)
+DInit == Init /\ pci = 0 /\ pk = 0
+DNext == pk = 0 /\ pk' \in DOMAIN PCases /\ UNCHANGED <<pci, scanners, iters, cache>>
+SizeDrift ==
+  pk # 0 =>
+    LET cs == PCases[pk]
+        A == Compile(cs.pats)
+        M == Minimize(A) IN
+    (Cardinality(A.states) # cs.pre_n \/ Cardinality(M.states) > cs.impl.n)
+      => PrintT(<<"MODEL-DRIFT", pk, Cardinality(A.states), cs.pre_n, Cardinality(M.states), cs.impl.n>>)
+
 =============================================================================
